@@ -115,6 +115,8 @@ type FuncCtx struct {
 	tsubst                                                    map[string]*Sort
 	entry                                                     *St
 	heapElems                                                 []*Sort
+	mapUni                                                    []mapTy
+	unknownCalls                                              int
 	specDecl                                                  map[string]bool
 	inlineDep                                                 int
 	unsup                                                     int
@@ -353,6 +355,15 @@ func (fc *FuncCtx) mergeStates(base *St, outs []*St, extra [][]Term) []Term {
 	}
 	res := base.clone()
 	res.pc = append([]Term(nil), base.pc[:nb]...)
+	// a long guard is named by a Boolean constant, so that the per-component implications below stay small
+	// (nested forks would otherwise copy the whole guard once per merged component and per nesting level)
+	for i := range guards {
+		if len(guards[i].S) > 400 {
+			b := fc.fresh("grd", SBool)
+			res.assume(Eq(b, guards[i]))
+			guards[i] = b
+		}
+	}
 	res.assume(Or(guards...))
 	mergeTerm := func(hint string, vals []Term) Term {
 		same := true
